@@ -65,7 +65,8 @@ Record LI (mx : Z) (k : call) : Prop := mkLI {
   li_iso : isobad k = false;
   li_result : match pc_ret (pc k) with Some r => is_result r = true -> done k = true /\ res k = r | None => True end;
   li_await : match pc k with PAwait _ => hc k = true | _ => True end;
-  li_sent : match pc k with PNop | PDropped => sent k = true | _ => True end
+  li_sent : match pc k with PNop | PDropped => sent k = true | _ => True end;
+  li_selfpc : settled_pc (pc k) = false -> selfclaim k = false
 }.
 
 Lemma LI_call0 : forall mx, 1 <= mx -> LI mx call0.
@@ -435,11 +436,12 @@ Qed.
 
 Definition core_same (k k' : call) : Prop :=
   mid k' = mid k /\ everreg k' = everreg k /\ writer k' = writer k /\ hc k' = hc k /\ done k' = done k /\
-  selfclaim k' = selfclaim k /\ nwrites k' = nwrites k /\ out k' = out k /\ res k' = res k.
+  selfclaim k' = selfclaim k /\ nwrites k' = nwrites k /\ out k' = out k /\ res k' = res k /\
+  seq k' = seq k /\ body k' = body k /\ pc k' = pc k.
 
 Lemma core_same_pres : forall k k', core_same k k' -> core_pres k k'.
 Proof.
-  unfold core_same, core_pres. intros k k' (A1 & A2 & A3 & A4 & A5 & A6 & A7 & A8 & A9).
+  unfold core_same, core_pres. intros k k' (A1 & A2 & A3 & A4 & A5 & A6 & A7 & A8 & A9 & _).
   repeat split; intros; congruence.
 Qed.
 
@@ -588,4 +590,393 @@ Proof.
   induction tr as [|e t IH]; intros s s' Hmx HG H; cbn in H.
   - inversion H; subst; auto.
   - destruct (step s e) as [s1|] eqn:E; try discriminate. apply (IH s1 s' Hmx); auto. eapply step_GI; eauto.
+Qed.
+
+(* ---------- progress after ForceClose ---------- *)
+Definition rank (p : cpc) : nat :=
+  match p with
+  | PIdle => 0 | PReturned _ => 0 | PSettled _ => 1 | PAwait _ => 2 | PUnreg _ => 3 | PFinal _ => 4
+  | PDropped => 5 | PNop => 6 | PWaitCtx => 7 | PWaitClosed => 7 | PWait => 8 | PRetried _ => 9 | PExit _ => 10
+  | PSelClosed => 11 | PSelect => 12 | PSentGo => 13 | PTimerGo => 14 | PSelTimer => 15 | PAckWait => 16
+  | PRegistered => 17 | PEntered => 18
+  end%nat.
+
+Definition drank (s : state) (c : Z) : nat :=
+  let k := calls s c in
+  if done k then 0%nat else
+  match writer k with
+  | Some d => match dpcv (dels s d), dpay (dels s d) with
+              | DClaimed _, PErr _ => 1 | DClaimed _, _ => 2 | DDecoded _ _, _ => 1 | _, _ => 0
+              end
+  | None => 0
+  end%nat.
+
+Definition mu (s : state) (c : Z) : nat :=
+  (3 * rank (pc (calls s c)) + match pc (calls s c) with PAwait _ => drank s c | _ => 0 end)%nat.
+
+Definition pending (p : cpc) : bool := match p with PIdle | PReturned _ => false | _ => true end.
+Definition pre_ack (p : cpc) : bool := match p with PEntered | PRegistered => true | _ => false end.
+
+Lemma drank_le : forall s c, (drank s c <= 2)%nat.
+Proof.
+  intros. unfold drank. destruct (done (calls s c)); auto.
+  destruct (writer (calls s c)); auto. destruct (dpcv (dels s z)); auto; destruct (dpay (dels s z)); auto.
+Qed.
+
+Lemma ret_matches_code : forall r, ret_matches r (fst (ret_code r)) (snd (ret_code r)) = true.
+Proof. intros r. unfold ret_matches. destruct (ret_code r). cbn. rewrite !Z.eqb_refl. auto. Qed.
+
+Ltac stepc Epc :=
+  unfold step; cbn [ev_caller]; cbv zeta; cbn [caller]; rewrite ?Epc; cbn [caller].
+
+Ltac fin2 := cbn; rewrite ?upd_eq; cbn; repeat split; auto; try discriminate; try lia.
+
+Lemma progress_step : forall mx s c,
+  1 <= mx -> GI mx s -> fclosed s = true ->
+  pending (pc (calls s c)) = true ->
+  (pre_ack (pc (calls s c)) = true -> ackm s (mid (calls s c)) = None) ->
+  exists e s', is_env e = false /\ step s e = Some s' /\ fclosed s' = true /\
+               (pre_ack (pc (calls s' c)) = true -> ackm s' (mid (calls s' c)) = None) /\
+               (mu s' c < mu s c)%nat.
+Proof.
+  intros mx s c Hmx HG Hf Hp Hack.
+  pose proof HG as [Gm Gl Gd Gr Gw]. pose proof (Gl c) as HL.
+  unfold mu.
+  destruct (pc (calls s c)) eqn:Epc; try discriminate Hp.
+  - (* PEntered *)
+    exists (CRegistered c). eexists. split; [reflexivity|]. split; [stepc Epc; reflexivity|].
+    fin2.
+  - (* PRegistered *)
+    exists (CAckWait c). eexists. split; [reflexivity|]. split; [stepc Epc; rewrite (Hack eq_refl); reflexivity|].
+    fin2.
+  - (* PAckWait *)
+    exists (CSend c (mid (calls s c)) (seq (calls s c)) (body (calls s c)) 0). eexists. split; [reflexivity|].
+    split; [stepc Epc; rewrite !Z.eqb_refl; cbn; rewrite ?Epc; reflexivity|].
+    fin2.
+  - (* PSentGo *)
+    destruct (tmade (calls s c)) eqn:Et.
+    + exists (CSelect c). eexists. split; [reflexivity|]. split; [stepc Epc; rewrite Et; reflexivity|]. fin2.
+    + exists (CSelect c). eexists. split; [reflexivity|]. split; [stepc Epc; rewrite Et; reflexivity|]. fin2.
+  - (* PSelect *)
+    exists (CSelClosed c). eexists. split; [reflexivity|]. split; [stepc Epc; rewrite Hf; reflexivity|].
+    fin2.
+  - (* PSelClosed *)
+    destruct (ackclosed (calls s c)) eqn:Ea; [|destruct (rcancel (calls s c)) eqn:Er].
+    + exists (CClosedAcked c). eexists. split; [reflexivity|]. split; [stepc Epc; rewrite Ea; reflexivity|].
+      fin2.
+    + exists (CClosedCtx c). eexists. split; [reflexivity|]. split; [stepc Epc; rewrite Er; reflexivity|].
+      fin2.
+    + exists (CClosedUnacked c). eexists. split; [reflexivity|]. split; [stepc Epc; rewrite Ea, Er; reflexivity|].
+      fin2.
+  - (* PSelTimer *)
+    destruct (ackclosed (calls s c)) eqn:Ea; [|destruct (rcancel (calls s c)) eqn:Er].
+    + exists (CTimerAcked c). eexists. split; [reflexivity|]. split; [stepc Epc; rewrite Ea; reflexivity|].
+      fin2.
+    + exists (CTimerCtx c). eexists. split; [reflexivity|]. split; [stepc Epc; rewrite Er; reflexivity|].
+      fin2.
+    + exists (CTimerGo c). eexists. split; [reflexivity|]. split; [stepc Epc; rewrite Ea, Er; reflexivity|].
+      fin2.
+  - (* PTimerGo *)
+    destruct (Z.geb (retries (calls s c) + 1) (maxr s)) eqn:Eg.
+    + exists (CSend c (mid (calls s c)) (seq (calls s c)) (body (calls s c)) 0). eexists. split; [reflexivity|].
+      split; [stepc Epc; rewrite !Z.eqb_refl; cbn; rewrite ?Epc; cbn; rewrite Eg; reflexivity|]. fin2.
+    + exists (CSend c (mid (calls s c)) (seq (calls s c)) (body (calls s c)) 0). eexists. split; [reflexivity|].
+      split; [stepc Epc; rewrite !Z.eqb_refl; cbn; rewrite ?Epc; cbn; rewrite Eg; reflexivity|]. fin2.
+  - (* PExit *)
+    exists (CRetried c). eexists. split; [reflexivity|]. split; [stepc Epc; reflexivity|].
+    fin2.
+  - (* PRetried *)
+    assert (W : exists s', step s (CWait c) = Some s' /\ fclosed s' = true /\ pc (calls s' c) = PWait
+                           \/ exists r, step s (CRetryErr c) = Some s' /\ fclosed s' = true /\ pc (calls s' c) = PFinal r).
+    { destruct l; try (eexists; left; split; [stepc Epc; reflexivity|]; cbn; rewrite !upd_eq; auto);
+      try (eexists; right; eexists; split; [stepc Epc; reflexivity|]; cbn; rewrite !upd_eq; cbn; eauto).
+      destruct (rcancel (calls s c)) eqn:Er.
+      - eexists; left; split; [stepc Epc; rewrite Er; reflexivity|]; cbn; rewrite !upd_eq; auto.
+      - eexists; right; eexists; split; [stepc Epc; rewrite Er; reflexivity|]; cbn; rewrite !upd_eq; cbn; eauto. }
+    destruct W as [s' [(W1 & W2 & W3) | (r & W1 & W2 & W3)]].
+    + exists (CWait c), s'. rewrite W3. fin2.
+    + exists (CRetryErr c), s'. rewrite W3. fin2.
+  - (* PWait *)
+    exists (CWaitClosed c). eexists. split; [reflexivity|]. split; [stepc Epc; rewrite Hf; reflexivity|].
+    fin2.
+  - (* PWaitCtx *)
+    destruct (sent (calls s c)) eqn:Es.
+    + exists (CNop c). eexists. split; [reflexivity|]. split; [stepc Epc; rewrite Es; reflexivity|].
+      fin2.
+    + exists (CUnregistered c). eexists. split; [reflexivity|]. split; [stepc Epc; rewrite Es; reflexivity|].
+      fin2.
+  - (* PNop *)
+    exists (CDrop c (mid (calls s c)) 0). eexists. split; [reflexivity|].
+    split; [stepc Epc; rewrite Z.eqb_refl; reflexivity|].
+    fin2.
+  - (* PDropped *)
+    exists (CUnregistered c). eexists. split; [reflexivity|]. split; [stepc Epc; reflexivity|].
+    fin2.
+  - (* PWaitClosed *)
+    destruct (done (calls s c)) eqn:Ed.
+    + exists (CWaitClosedDone c). eexists. split; [reflexivity|]. split; [stepc Epc; rewrite Ed; reflexivity|].
+      fin2.
+    + exists (CWaitClosedNoDone c). eexists. split; [reflexivity|]. split; [stepc Epc; rewrite Ed; reflexivity|].
+      fin2.
+  - (* PFinal *)
+    exists (CUnregistered c). eexists. split; [reflexivity|]. split; [stepc Epc; reflexivity|].
+    fin2.
+  - (* PUnreg *)
+    destruct (hc (calls s c)) eqn:Eh.
+    + exists (CAwait c). eexists. split; [reflexivity|]. split; [stepc Epc; rewrite Eh; reflexivity|].
+      split; [cbn; auto|]. split; [cbn; rewrite !upd_eq; cbn; discriminate|].
+      match goal with |- (_ + match pc (calls ?s' c) with _ => _ end < _)%nat => pose proof (drank_le s' c) end.
+      cbn in *. rewrite !upd_eq in *. cbn in *. lia.
+    + exists (CSettled c). eexists. split; [reflexivity|]. split; [stepc Epc; rewrite Eh; reflexivity|].
+      fin2.
+  - (* PAwait *)
+    destruct (done (calls s c)) eqn:Ed.
+    + exists (CSettled c). eexists. split; [reflexivity|]. split; [stepc Epc; rewrite Ed; reflexivity|].
+      fin2.
+    + (* the handler invocation that claimed the call finishes *)
+      pose proof (li_await _ _ HL) as Hh. rewrite Epc in Hh.
+      assert (Hs : selfclaim (calls s c) = false) by (apply (li_selfpc _ _ HL); rewrite Epc; reflexivity).
+      destruct (Gw c Hh Hs) as (d & W1 & W2 & W3 & W4). rewrite Ed in W4.
+      pose proof (Gd d) as D. unfold DI in D. cbv zeta in D.
+      destruct W4 as [W4 | [ok W4]]; rewrite W4 in D.
+      * destruct (dpay (dels s d)) as [v| |code] eqn:Epay.
+        -- exists (NDecode d c true v). eexists. split; [reflexivity|].
+           split; [unfold step; cbn [ev_caller]; cbv zeta; rewrite W4, Epay, !Z.eqb_refl; reflexivity|].
+           split; [cbn; auto|]. split; [cbn; rewrite !upd_eq; cbn; rewrite Epc; discriminate|].
+           unfold drank. cbn. rewrite !upd_eq. cbn. rewrite Epc, Ed, W1, upd_eq. cbn. rewrite W4, Epay. unfold rank; lia.
+        -- exists (NDecode d c false 0). eexists. split; [reflexivity|].
+           split; [unfold step; cbn [ev_caller]; cbv zeta; rewrite W4, Epay, !Z.eqb_refl; reflexivity|].
+           split; [cbn; auto|]. split; [cbn; rewrite Epc; discriminate|].
+           unfold drank. cbn. rewrite Epc, Ed, W1, upd_eq. cbn. rewrite W4, Epay. unfold rank; lia.
+        -- exists (NDoneClosed d c). eexists. split; [reflexivity|].
+           split; [unfold step; cbn [ev_caller]; cbv zeta; rewrite W4, Epay, !Z.eqb_refl; reflexivity|].
+           split; [cbn; auto|]. split; [cbn; rewrite !upd_eq; cbn; rewrite Epc; discriminate|].
+           unfold drank. cbn. rewrite !upd_eq. cbn. rewrite Epc, Ed, W1, W4, Epay. unfold rank; lia.
+      * destruct ok.
+        -- exists (NDoneClosed d c). eexists. split; [reflexivity|].
+           split; [unfold step; cbn [ev_caller]; cbv zeta; rewrite W4, !Z.eqb_refl; reflexivity|].
+           split; [cbn; auto|]. split; [cbn; rewrite !upd_eq; cbn; rewrite Epc; discriminate|].
+           unfold drank. cbn. rewrite !upd_eq. cbn. rewrite Epc, Ed, W1, W4. destruct (dpay (dels s d)); unfold rank; lia.
+        -- exists (NDoneClosed d c). eexists. split; [reflexivity|].
+           split; [unfold step; cbn [ev_caller]; cbv zeta; rewrite W4, !Z.eqb_refl; reflexivity|].
+           split; [cbn; auto|]. split; [cbn; rewrite !upd_eq; cbn; rewrite Epc; discriminate|].
+           unfold drank. cbn. rewrite !upd_eq. cbn. rewrite Epc, Ed, W1, W4. destruct (dpay (dels s d)); unfold rank; lia.
+  - (* PSettled *)
+    exists (CReturn c (fst (ret_code r)) (snd (ret_code r)) (retryable r) (retryable_tg r)). eexists. split; [reflexivity|].
+    split; [stepc Epc; rewrite ret_matches_code, !eqb_reflx; reflexivity|].
+    fin2.
+Qed.
+
+(* ---------- the identity of a call is fixed when it enters ---------- *)
+Definition ident_pres (k k' : call) : Prop :=
+  pc k <> PIdle -> pc k' <> PIdle /\ mid k' = mid k /\ seq k' = seq k /\ body k' = body k.
+
+Lemma caller_ident : forall mx fc ec af c k e k' g,
+  caller mx fc ec af c k e = Some (k', g) -> ident_pres k k'.
+Proof.
+  intros mx fc ec af c k e k' g H Hn.
+  destruct e; cbn [caller] in H; try discriminate H; brk H; inversion H; subst; cbn; try congruence;
+  repeat split; auto; discriminate.
+Qed.
+
+Lemma step_ident : forall s e s' c, step s e = Some s' -> ident_pres (calls s c) (calls s' c).
+Proof.
+  intros s e s' c H. unfold step in H.
+  destruct (ev_caller e) as [c0|] eqn:Ec.
+  { destruct (caller (maxr s) (fclosed s) (eclosed s) (isNone (ackm s (mid (calls s c0)))) c0 (calls s c0) e)
+      as [[k' g]|] eqn:Hc; inversion H; subst.
+    rewrite calls_apply. destruct (Z.eqb_spec c c0); subst; [eapply caller_ident; eauto | intros ?; auto]. }
+  assert (R : forall k, ident_pres k k) by (intros k Hn; auto).
+  destruct e; try discriminate Ec; cbv zeta in H;
+  try solve [brk H; inversion H; subst; clear H; cbn; unfold upd; try destruct (Z.eqb_spec c c0); subst; try apply R;
+             intros Hn; cbn; auto].
+  (* XAcks *)
+  destruct (do_acks (calls s) (ackm s) l) as [[cs am] cl] eqn:Ea.
+  destruct (zlist_eqb cl l2); inversion H; subst; clear H.
+  assert (A : forall l cs am cs' am' cl, do_acks cs am l = (cs', am', cl) -> forall c, core_same (cs c) (cs' c)).
+  { clear. induction l as [|m t IH]; intros cs am cs' am' cl H c; cbn in H.
+    - inversion H; subst. unfold core_same. repeat split; auto.
+    - destruct (am m) as [c0|] eqn:E; [|eauto].
+      destruct (do_acks (upd cs c0 (set_deliv (set_ackclosed (cs c0) true) true)) (upd am m None) t) as [[cs1 am1] cl1] eqn:E1.
+      inversion H; subst. pose proof (IH _ _ _ _ _ E1 c) as I2. unfold upd in I2.
+      destruct (Z.eqb_spec c c0); subst; auto. }
+  destruct (A _ _ _ _ _ _ Ea c) as (A1 & _ & _ & _ & _ & _ & _ & _ & _ & A10 & A11 & A12).
+  intros Hn. cbn. rewrite A12, A1, A10, A11. auto.
+Qed.
+
+Lemma run_ident : forall tr s s' c, run s tr = Some s' -> ident_pres (calls s c) (calls s' c).
+Proof.
+  induction tr as [|e t IH]; intros s s' c H; cbn in H.
+  - inversion H; subst. intros Hn; auto.
+  - destruct (step s e) as [s1|] eqn:E; try discriminate. intros Hn.
+    destruct (step_ident _ _ _ c E Hn) as (A1 & A2 & A3 & A4).
+    destruct (IH _ _ c H A1) as (B1 & B2 & B3 & B4). repeat split; congruence.
+Qed.
+
+Lemma pending_rank : forall p, pending p = true -> (1 <= rank p)%nat.
+Proof. destruct p; cbn; intros; try discriminate; lia. Qed.
+
+Lemma pending_or_returned : forall p, p <> PIdle -> pending p = true \/ is_returned p = true.
+Proof. destruct p; cbn; intros; auto; congruence. Qed.
+
+Theorem progress_after_close : forall mx, 1 <= mx -> forall n s c,
+  GI mx s -> fclosed s = true -> pending (pc (calls s c)) = true ->
+  (pre_ack (pc (calls s c)) = true -> ackm s (mid (calls s c)) = None) ->
+  (mu s c <= n)%nat ->
+  exists es s', Forall (fun e => is_env e = false) es /\ run s es = Some s' /\
+                is_returned (pc (calls s' c)) = true /\ (length es <= n)%nat.
+Proof.
+  intros mx Hmx. induction n as [|n IH]; intros s c HG Hf Hp Hack Hmu.
+  - pose proof (pending_rank _ Hp). unfold mu in Hmu. lia.
+  - destruct (progress_step mx s c Hmx HG Hf Hp Hack) as (e & s1 & E1 & E2 & E3 & E4 & E5).
+    assert (HG1 : GI mx s1) by (eapply step_GI; eauto).
+    assert (Hn : pc (calls s c) <> PIdle) by (destruct (pc (calls s c)); cbn in Hp; congruence).
+    destruct (step_ident _ _ _ c E2 Hn) as (N1 & _).
+    destruct (pending_or_returned _ N1) as [P | R].
+    + destruct (IH s1 c HG1 E3 P E4) as (es & s' & F1 & F2 & F3 & F4); [lia|].
+      exists (e :: es), s'. repeat split; auto.
+      * cbn. rewrite E2. auto.
+      * cbn. lia.
+    + exists [e], s1. repeat split; auto.
+      * cbn. rewrite E2. auto.
+      * cbn. lia.
+Qed.
+
+Lemma mu_bound : forall s c, (mu s c <= 56)%nat.
+Proof.
+  intros. unfold mu. pose proof (drank_le s c). destruct (pc (calls s c)); cbn; lia.
+Qed.
+
+(* ---------- the statements used by Prop/C24.v, Prop/C25.v, Prop/C26.v ---------- *)
+Definition reach (mx : Z) (s : state) : Prop := exists tr, run (init mx) tr = Some s.
+
+Lemma reach_GI : forall mx s, 1 <= mx -> reach mx s -> GI mx s.
+Proof. intros mx s Hmx [tr H]. eapply run_GI; eauto. apply GI_init; auto. Qed.
+
+(* C24 *)
+Lemma c24_once : forall mx s c, 1 <= mx -> reach mx s ->
+  nret (calls s c) <= 1 /\
+  (is_returned (pc (calls s c)) = true -> forall rc rd a b, step s (CReturn c rc rd a b) = None).
+Proof.
+  intros mx s c Hmx HR. pose proof (reach_GI _ _ Hmx HR) as [_ Gl _ _ _].
+  split.
+  - rewrite (li_nret _ _ (Gl c)). destruct (is_returned (pc (calls s c))); lia.
+  - intros Hret rc rd a b. unfold step. cbn [ev_caller]. cbv zeta. cbn [caller].
+    destruct (pc (calls s c)); try discriminate Hret; reflexivity.
+Qed.
+
+Lemma c24_return_value : forall mx s c r, 1 <= mx -> reach mx s ->
+  pc (calls s c) = PReturned r -> is_result r = true ->
+  exists d, writer (calls s c) = Some d /\ dmid (dels s d) = mid (calls s c) /\
+            payload_result (dpay (dels s d)) = r /\
+            match dpay (dels s d) with
+            | PRes v => out (calls s c) = v /\ nwrites (calls s c) = 1
+            | _ => nwrites (calls s c) = 0
+            end.
+Proof.
+  intros mx s c r Hmx HR Hpc Hres. pose proof (reach_GI _ _ Hmx HR) as [_ Gl _ _ Gw].
+  pose proof (Gl c) as HL. pose proof (li_result _ _ HL) as LR. rewrite Hpc in LR. cbn in LR.
+  destruct (LR Hres) as [Hd Hr].
+  assert (Hh : hc (calls s c) = true).
+  { destruct (hc (calls s c)) eqn:E; auto. destruct (li_hc0 _ _ HL E) as (_ & _ & D & _). congruence. }
+  assert (Hs : selfclaim (calls s c) = false).
+  { destruct (selfclaim (calls s c)) eqn:E; auto. destruct (li_self _ _ HL E) as (_ & _ & D). congruence. }
+  destruct (Gw c Hh Hs) as (d & W1 & W2 & W3 & W4). rewrite Hd in W4. destruct W4 as [W4 W5].
+  exists d. repeat split; auto. congruence.
+Qed.
+
+Lemma c24_write : forall mx s1 s2 d c v, 1 <= mx -> reach mx s1 ->
+  step s1 (NDecode d c true v) = Some s2 ->
+  dmid (dels s1 d) = mid (calls s1 c) /\ dpay (dels s1 d) = PRes v /\
+  is_returned (pc (calls s1 c)) = false.
+Proof.
+  intros mx s1 s2 d c v Hmx HR H. pose proof (reach_GI _ _ Hmx HR) as [_ Gl Gd _ _].
+  unfold step in H. cbn [ev_caller] in H. cbv zeta in H.
+  destruct (dpcv (dels s1 d)) eqn:Ed; try discriminate H.
+  pose proof (Gd d) as D. unfold DI in D. rewrite Ed in D. cbv zeta in D.
+  destruct D as (D1 & D2 & D3 & D4 & D5 & D6 & D7).
+  destruct (dpay (dels s1 d)) as [v'| |code] eqn:Ep; try discriminate H.
+  - destruct (Z.eqb_spec c c0); cbn in H; try discriminate H. subst c0.
+    destruct (Z.eqb_spec v v'); try discriminate H. subst v'.
+    repeat split; auto.
+    destruct (pc (calls s1 c)) eqn:Epc; auto.
+    pose proof (li_settled _ _ (Gl c)) as LS. rewrite Epc in LS. destruct (LS eq_refl D2) as [_ [W | W]]; congruence.
+  - destruct (Z.eqb_spec c c0); cbn in H; discriminate H.
+Qed.
+
+Lemma c24_ghosts : forall mx s c, 1 <= mx -> reach mx s -> late (calls s c) = false /\ isobad (calls s c) = false.
+Proof.
+  intros mx s c Hmx HR. pose proof (reach_GI _ _ Hmx HR) as [_ Gl _ _ _].
+  split; [apply (li_late _ _ (Gl c)) | apply (li_iso _ _ (Gl c))].
+Qed.
+
+(* C25 *)
+Lemma c25_identity : forall mx tr1 tr2 s1 s2 s3 c m q b o,
+  run (init mx) tr1 = Some s1 -> pc (calls s1 c) <> PIdle -> run s1 tr2 = Some s2 ->
+  step s2 (CSend c m q b o) = Some s3 ->
+  m = mid (calls s1 c) /\ q = seq (calls s1 c) /\ b = body (calls s1 c).
+Proof.
+  intros mx tr1 tr2 s1 s2 s3 c m q b o _ Hn H2 H.
+  destruct (run_ident _ _ _ c H2 Hn) as (_ & I1 & I2 & I3).
+  unfold step in H. cbn [ev_caller] in H. cbv zeta in H. cbn [caller] in H.
+  destruct (Z.eqb_spec m (mid (calls s2 c))); cbn in H; try discriminate H.
+  destruct (Z.eqb_spec q (seq (calls s2 c))); cbn in H; try discriminate H.
+  destruct (Z.eqb_spec b (body (calls s2 c))); cbn in H; try discriminate H.
+  repeat split; congruence.
+Qed.
+
+Lemma c25_bound : forall mx s c, 1 <= mx -> reach mx s ->
+  nsends (calls s c) <= 1 + mx /\
+  (forall r, pc (calls s c) = PReturned r -> (r = RLimit <-> retries (calls s c) = mx)).
+Proof.
+  intros mx s c Hmx HR. pose proof (reach_GI _ _ Hmx HR) as [_ Gl _ _ _]. pose proof (Gl c) as HL.
+  split.
+  - destruct (pre_send (pc (calls s c))) eqn:E1; [destruct (li_pre _ _ HL E1); lia|].
+    destruct (in_loop (pc (calls s c))) eqn:E2; [destruct (li_loop _ _ HL E2); lia|].
+    assert (E3 : after_loop (pc (calls s c)) = true) by (unfold after_loop; rewrite E1, E2; reflexivity).
+    destruct (li_after _ _ HL E3); lia.
+  - intros r Hpc. pose proof (li_after _ _ HL) as LA. rewrite Hpc in LA. cbn in LA.
+    destruct (LA eq_refl) as (_ & _ & L1 & L2). destruct r; cbn in *;
+    split; intros; try discriminate; auto; try (specialize (L2 eq_refl); lia).
+Qed.
+
+Lemma c25_quiet : forall mx s c, 1 <= mx -> reach mx s ->
+  viol25 (calls s c) = false /\ violleft (calls s c) = false /\
+  (pc (calls s c) = PTimerGo -> snap25 (calls s c) = false /\ ackclosed (calls s c) || rcancel (calls s c) = deliv (calls s c)).
+Proof.
+  intros mx s c Hmx HR. pose proof (reach_GI _ _ Hmx HR) as [_ Gl _ _ _]. pose proof (Gl c) as HL.
+  repeat split; try apply HL; auto. symmetry; apply HL.
+Qed.
+
+(* C26 *)
+Lemma c26_progress : forall mx s c, 1 <= mx -> reach mx s -> fclosed s = true ->
+  pending (pc (calls s c)) = true ->
+  (pre_ack (pc (calls s c)) = true -> ackm s (mid (calls s c)) = None) ->
+  exists es s', Forall (fun e => is_env e = false) es /\ run s es = Some s' /\
+                is_returned (pc (calls s' c)) = true /\ (length es <= 56)%nat.
+Proof.
+  intros mx s c Hmx HR Hf Hp Hack.
+  apply (progress_after_close mx Hmx 56%nat s c); auto using reach_GI, mu_bound.
+Qed.
+
+Lemma c26_class : forall mx s c, 1 <= mx -> reach mx s ->
+  viol26 (calls s c) = false /\
+  (pc (calls s c) = PReturned RClosedRetryable -> snap26 (calls s c) = false) /\
+  (pc (calls s c) = PReturned RClosedAcked -> deliv (calls s c) = true \/ sendcanc (calls s c) = true).
+Proof.
+  intros mx s c Hmx HR. pose proof (reach_GI _ _ Hmx HR) as [_ Gl _ _ _]. pose proof (Gl c) as HL.
+  repeat split; try apply HL.
+  - intros Hpc. apply (li_unacked _ _ HL). rewrite Hpc. reflexivity.
+  - intros Hpc. apply orb_true_iff. apply (li_acked _ _ HL). rewrite Hpc. reflexivity.
+Qed.
+
+Lemma c26_functions : forall r,
+  retryable r = is_engine_closed r /\ retryable_tg r = is_engine_closed r.
+Proof. intros r; split; destruct r; reflexivity. Qed.
+
+Lemma c26_drop : forall mx s c r, 1 <= mx -> reach mx s -> pc (calls s c) = PReturned r ->
+  ndrops (calls s c) = match r with RCtx => if sent (calls s c) then 1 else 0 | _ => 0 end.
+Proof.
+  intros mx s c r Hmx HR Hpc. pose proof (reach_GI _ _ Hmx HR) as [_ Gl _ _ _].
+  rewrite (li_drops _ _ (Gl c)). unfold drops_of. rewrite Hpc. reflexivity.
 Qed.
